@@ -41,7 +41,7 @@ def main():
             meta['imports_with_change'] = sh(f'/venv/bin/python -c "import sys; sys.path.insert(0, \'{wt}/src\'); import CircuitCalculator.Circuit.solution, CircuitCalculator.SimpleCircuit.Elements"').returncode == 0
             meta['demo_with_change_rc'] = sh(f'MPLBACKEND=Agg /venv/bin/python {a.demo} {wt}/src').returncode
             meta['tests_with_change'] = pytest_counts(wt)
-            env = dict(os.environ, CC_REPO=str(wt), VERIF_SEED='0')
+            env = dict(os.environ, CC_REPO=str(wt), VERIF_SEED='0', VERIF_EVIDENCE_DIR=tempfile.mkdtemp(prefix='seed_ev_'))
             meta['checks'] = {}
             for p in checks:
                 c = subprocess.run([str(ROOT / 'bin' / 'check'), '--property', p, '--tier', 'quick'], capture_output=True, text=True, env=env)
